@@ -148,12 +148,10 @@ Definition w_char_paren := (cfg_flat, OChr 40).
 Definition w_char_nul := (cfg_flat, OChr 0).
 (* (a |.| b) is printed (a . b) *)
 Definition w_symbol_dot := (cfg_flat, OList [OSym [97]; OSym [46]; OSym [98]]).
-(* the keyword |:a b| is printed :a b *)
-Definition w_keyword_space := (cfg_flat, OSym [58; 97; 32; 98]).
 
 Definition refutation_witnesses : list (pcfg * obj) :=
   [w_string_quote; w_single_float; w_integral_double; w_ratio_radix; w_array_radix; w_symbol_question;
-   w_symbol_non_ascii; w_symbol_nil; w_char_paren; w_char_nul; w_symbol_dot; w_keyword_space].
+   w_symbol_non_ascii; w_symbol_nil; w_char_paren; w_char_nul; w_symbol_dot].
 Theorem outside_guard_refuted : forallb (fun w => refuted (fst w) (snd w)) refutation_witnesses = true.
 Proof. vm_compute. reflexivity. Qed.
 (* what the model makes of some of them *)
